@@ -12,6 +12,7 @@ void gstuff_autorecv_setbuf_v1(struct gstuff_autorecv_v1 *autom,
                                int len)
 {
     sline_init(&autom->line, buf, len);
+    autom->state = 0;
     gstuff_autorecv_reset_v1(autom);
 }
 
